@@ -1375,7 +1375,23 @@ func (r *Resolver) authority(ctx context.Context, req, resp *dns.Msg, parentDS [
 		}
 	}
 
+	// Nothing in a negative response's additional section is part of the
+	// denial or was validated with it, so an authority can pad it with
+	// records it has no say over. answer() clears the section for the same
+	// reason; keep only the OPT here.
+	resp.Extra = optOnly(resp.Extra)
+
 	return resp, nil
+}
+
+// optOnly returns the OPT pseudo-record of an additional section, if any.
+func optOnly(extra []dns.RR) []dns.RR {
+	for _, rr := range extra {
+		if rr != nil && rr.Header().Rrtype == dns.TypeOPT {
+			return []dns.RR{rr}
+		}
+	}
+	return []dns.RR{}
 }
 
 func (r *Resolver) lookup(ctx context.Context, rs *resolveState, req *dns.Msg, servers *authority.Servers) (resp *dns.Msg, err error) {
